@@ -60,6 +60,7 @@ def draw_measure(data, tier):
     fam = data.draw(st.sampled_from(FAMS + [i for i in FAMS if PG.species(G.FAMILIES[i][0])]))      # fermions twice as often
     ops, sp, named = G.family(fam)
     lats = [l for l in LATS_Q + [[2, 2, 'obc'], [2, 3, 'obc'], [3, 2, 'obc'], [3, 3, 'obc']] if sp.d ** (l[0] * l[1]) <= 1024]     # (3x3 for d = 2 only)
+    lats = lats + [l for l in lats if min(l[0], l[1]) > 1]        # two-dimensional lattices twice as often as chains
     lat = data.draw(st.sampled_from(lats))
     N = lat[0] * lat[1]
     purification = P.chance(data, 1, 5) and sp.d ** (2 * N) <= 5000
@@ -80,7 +81,7 @@ def draw_measure(data, tier):
     one, pairs = op_catalogue(fam)
     sites = PG.sites_of(lat)
     ms = []
-    for _ in range(data.draw(st.integers(3, 6))):
+    for _ in range(data.draw(st.integers(4, 8))):
         kind = data.draw(st.sampled_from(['2site', 'nsite', 'nn', '1site', '2site', 'nsite', '2x2', 'line', 'nn', '2site']))
         m = {'kind': kind}
         if kind == '1site':
@@ -90,7 +91,7 @@ def draw_measure(data, tier):
             if kind == 'nn':
                 m['bond'] = data.draw(st.sampled_from([None] + [[list(a), list(b)] for a, b in PG.neighbours(lat)]))
             else:
-                m.update({'pairs': data.draw(st.sampled_from(['corner <=', 'corner <', '<', '<=', 'row <'])), 'dirn': data.draw(st.sampled_from(['v', 'h']))})
+                m.update({'pairs': data.draw(st.sampled_from(['corner <=', 'corner <', '<', '<', '<=', 'row <'])), 'dirn': data.draw(st.sampled_from(['v', 'h']))})
                 if P.chance(data, 1, 2):      # a window that need not reach the lattice edges
                     x0 = data.draw(st.integers(0, lat[0] - 1))
                     y0 = data.draw(st.integers(0, lat[1] - 1))
@@ -152,7 +153,11 @@ def execute_measure(desc):
     idx = PG.index_of(lat)
     N = len(idx)
     kind = desc['env']
-    labels = [l for l in labels if l.startswith(('family', 'lattice', 'pur'))] + ['env:' + kind]
+    fallback = []
+    if kind == 'ctm' and max_bond(psi) ** (2 * max(lat[0], lat[1])) > 4096:
+        # the exactly expanded corners would have dimension D^(2 k): measure the same state with boundary MPS instead of discarding the case
+        kind, fallback = 'mps', ['ctm_too_large:measured_with_boundary_mps']
+    labels = [l for l in labels if l.startswith(('family', 'lattice', 'pur'))] + ['env:' + kind] + fallback
     entangled = any(len(g['sites']) > 1 for g in desc['gates'])
     try:
         env, disc = build_env(kind, psi, lat, desc)
